@@ -197,6 +197,7 @@ func (x *Exec) fieldsOf(t *Table, names []string) []*TField {
 // matcher builds the membership predicate for List (prefix) or ListRange / DeleteRange (from,to).
 func (x *Exec) matcher(st *State, t *Table, m string, args []Val) (func(st *State, key string) string, []*TField) {
 	x.lastOrderField = nil
+	x.lastRangeBad = "false"
 	if m == "List" || m == "DeleteBy" {
 		ik, ok := unwrapIndexKey(args[0])
 		if !ok {
@@ -227,6 +228,9 @@ func (x *Exec) matcher(st *State, t *Table, m string, args []Val) (func(st *Stat
 	}
 	fs := x.fieldsOf(t, from.Fields)
 	lo, hi := x.idxValTerm(st, from.Vals[0]), x.idxValTerm(st, to.Vals[0])
+	// the ORM rejects a range whose start is not strictly before its end ("invalid range iteration keys"):
+	// a deterministic error, found by the conformance run conf_orm (the first model assumed any range was fine)
+	x.lastRangeBad = fmt.Sprintf("(not (< %s %s))", lo, hi)
 	return func(st2 *State, key string) string {
 		v := x.idxFieldTerm(st2, t, fs[0], key)
 		return fmt.Sprintf("(and (<= %s %s) (<= %s %s))", lo, v, v, hi)
@@ -237,7 +241,7 @@ func (x *Exec) ormList(st *State, fr *frame, t *Table, m string, args []Val, k f
 	s := x.s
 	s.Assumed[iterTrust] = true
 	match, fs := x.matcher(st, t, m, args)
-	io := s.ioFail(st)
+	io := or(s.ioFail(st), x.lastRangeBad)
 	eid := s.freshErrID()
 	n := s.declare(s.fresh("iter.n"), "Int")
 	s.fact("(>= " + n + " 0)")
@@ -369,7 +373,7 @@ func (x *Exec) ormDeleteRange(st *State, fr *frame, t *Table, m string, args []V
 	s := x.s
 	s.Assumed[iterTrust] = true
 	match, _ := x.matcher(st, t, m, args)
-	io := s.ioFail(st)
+	io := or(s.ioFail(st), x.lastRangeBad)
 	eid := s.freshErrID()
 	st2 := st.Clone()
 	st2.assume(io)
